@@ -192,9 +192,27 @@ def lean_sources():
     return sorted(out)
 
 
-def forbidden_hits():
+def import_closure(prop: str):
+    """Lean source files a property's theorems and driver depend on (transitive `import PercevalModel.*`)."""
+    roots = [os.path.join(LEAN_DIR, "PercevalModel", "Props", f"{prop}.lean"),
+             os.path.join(LEAN_DIR, "Driver", f"{prop}.lean")]
+    seen, todo = [], [r for r in roots if os.path.exists(r)]
+    while todo:
+        f = todo.pop()
+        if f in seen:
+            continue
+        seen.append(f)
+        for m in re.finditer(r"^\s*(?:public\s+)?import\s+(PercevalModel(?:\.\w+)*)", strip_comments(open(f).read()), re.M):
+            g = os.path.join(LEAN_DIR, *m.group(1).split(".")) + ".lean"
+            if os.path.exists(g):
+                todo.append(g)
+    return sorted(seen)
+
+
+def forbidden_hits(prop: str = None):
+    """grep for forbidden constructs in the files the property depends on (whole project if prop is None)"""
     hits = []
-    for path in lean_sources():
+    for path in (import_closure(prop) if prop else lean_sources()):
         for i, line in enumerate(strip_comments(open(path).read()).splitlines(), 1):
             if FORBIDDEN.search(line):
                 hits.append(f"{os.path.relpath(path, LEAN_DIR)}:{i}: {line.strip()}")
@@ -264,7 +282,8 @@ def lean_build_and_audit(prop: str, thorough: bool):
         else:
             res["failed"].append(f"{n}: non-standard axioms {sorted(axs - STD_AXIOMS)}")
     res["discharged"] = good
-    hits = forbidden_hits()
+    hits = forbidden_hits(prop)
+    res["files_audited"] = [os.path.relpath(f, LEAN_DIR) for f in import_closure(prop)]
     if hits:
         res["failed"].extend("forbidden construct: " + h for h in hits[:10])
     if thorough:
